@@ -176,7 +176,7 @@ def respond (line : String) : String :=
         | .error e => s!"differ {e}"
         | .ok st =>
           let lim := 1000000000
-          match readHeader { lim := lim } st.sink, readHeader { lim := lim } implFile with
+          match readHeader { lim := lim } bigFuel st.sink, readHeader { lim := lim } bigFuel implFile with
           | .ok (m1, k1, r1), .ok (m2, k2, r2) =>
             let srt (m : List (Bytes × Bytes)) := m.foldl (fun acc kv => insertSorted kv.1 (hex kv.2) acc) []
             if srt m1 != srt m2 then "differ header metadata"
